@@ -152,7 +152,7 @@ def gen(tier, rng, shard, nshards):
             yield {"mode": "hutch-formula", "seed": S.seed(rng), "key": int(rng.integers(0, 2**31 - 1)), "n": int(S.pick(rng, [2, 3, 6, 10, 101, 130])),
                    "k": int(S.pick(rng, [0, 0, 1, -1, 3, -3])), "rand": S.pick(rng, ["normal", "rademacher"]), "max_iters": int(S.pick(rng, [1, 2, 3, 7])),
                    "dt": S.pick(rng, ["f8", "f8", "c16"]), "kind": S.pick(rng, ["Dense", "Diagonal", "Dense"]),
-                   "via": S.pick(rng, ["function", "function", "Hutch-object"])}
+                   "via": S.pick(rng, ["function", "function", "Hutch-object"]), "annot": S.pick(rng, [None, None, "PSD", "SelfAdjoint"])}
         else:
             yield {"mode": "hutch-bias", "seed": S.seed(rng), "n": int(S.pick(rng, [3, 5, 8])), "k": int(S.pick(rng, [0, 1, -1])),
                    "rand": S.pick(rng, ["normal", "rademacher"])}
@@ -314,12 +314,18 @@ def run_formula(ctx, case):
     n, k, rand = case["n"], case["k"], case["rand"]
     if abs(k) >= n:
         k = 0
-    M = make_operator(n, case["seed"], case["dt"], sym=False)
+    M = make_operator(n, case["seed"], case["dt"], sym=bool(case.get("annot")))
     if case["kind"] == "Diagonal":
         M = np.diag(np.diag(M))
     ctx.begin_case(case, sig=f"formula|{n}|{k}|{rand}|{case['max_iters']}|{case['dt']}|{case['kind']}", nontrivial=True)
     preds = {"rand": rand, "k_class": "0" if k == 0 else ("+" if k > 0 else "-"), "complex": case["dt"] in P.CPLX, "kind": case["kind"]}
     A = cola.ops.Diagonal(np.diag(M).copy()) if case["kind"] == "Diagonal" else cola.ops.Dense(M)
+    wrap = {"PSD": cola.PSD, "SelfAdjoint": cola.SelfAdjoint}.get(case.get("annot"), lambda op: op)
+    if case.get("annot"):
+        # a (truthfully) declared operator that still reaches the estimator: matrix-free, positive definite with off-diagonal
+        # entries of both signs
+        A = wrap(cola.ops.LinearOperator(M.dtype, M.shape, matmat=lambda X, M=M: M @ X))
+        preds["declared"] = case["annot"]
     TAP.start()
     LOOPS.install()
     LOOPS.start(hard_cap=case["max_iters"] + 5)
@@ -330,7 +336,7 @@ def run_formula(ctx, case):
             # the same estimator reached through the public entry point with an algorithm object carrying every option
             # (a matrix-free operator: kinds with a structural diag rule never reach the estimator)
             from cola import linalg as L
-            G = cola.ops.LinearOperator(M.dtype, M.shape, matmat=lambda X, M=M: M @ X)
+            G = wrap(cola.ops.LinearOperator(M.dtype, M.shape, matmat=lambda X, M=M: M @ X))
             out = ctx.call(L.diag, G, k, L.Hutch(tol=2e-3, max_iters=case["max_iters"], rand=rand, key=case["key"]))
             out = out if is_err(out) else (out, )
         else:
